@@ -292,6 +292,14 @@ func normalisedRun(r *report.Report, c *rules.Ctx, f rules.PropertyFunc, tier st
 		func(h, caller *types.Func, shared, thin bool) bool {
 			return sus[caller.FullName()] && !sus[h.FullName()] && !sem[h.FullName()]
 		},
+		// shared helpers called by a function a violation points at are inlined there (and only there) even
+		// when other obligations speak about them: the helper itself stays for its other callers
+		func(h, caller *types.Func, shared, thin bool) bool {
+			if sus[caller.FullName()] && !sus[h.FullName()] {
+				return shared || !sem[h.FullName()]
+			}
+			return false
+		},
 		func(h, caller *types.Func, shared, thin bool) bool {
 			if shared || thin {
 				return false
